@@ -10,5 +10,5 @@ python3 tools/check.py "$prop" --tier "$tier" > /tmp/try_mutant.out 2>/tmp/try_m
 rc=$?
 git -C /repo checkout -- .
 echo "mutant=$patch prop=$prop rc=$rc"
-grep -E "^(VIOLATION|KNOWN-FINDING)" /tmp/try_mutant.out | head -5
+grep -E "^VIOLATION" /tmp/try_mutant.out | head -4; echo "known-finding lines: $(grep -c "^KNOWN-FINDING" /tmp/try_mutant.out)"
 exit 0
